@@ -88,7 +88,7 @@ def reference_draw(rec, data, block, kind, knobs, others, start, tape, n_steps):
     v = lambda k: np.asarray(others[k], float).ravel()
     gmrf = rec.get("xprior", "gauss") == "gmrf"
     if kind == "Conjugate":
-        if block == "s" and shape in ("x_s", "x_d_s", "x_s_w"):
+        if block == "s" and shape in ("x_s", "x_d_s", "x_s_w", "x_s_step"):
             return gamma_steps(tape, m / 2 + 1.0, 0.5 * np.sum((A @ v("x") - y) ** 2) + 0.1, n_steps)
         if block == "s" and shape == "x_z_s":
             return gamma_steps(tape, m / 2 + 1.0, 0.5 * np.sum((A @ v("x") + data["B"] @ v("z") - y) ** 2) + 0.1, n_steps)
@@ -115,7 +115,7 @@ def reference_draw(rec, data, block, kind, knobs, others, start, tape, n_steps):
     if kind == "LinearRTO" and block == "x":
         maxit, tol = knobs.get("maxit", 10), knobs.get("tol", 1e-6)
         I = np.eye(n)
-        if shape in ("x_s", "x_s_w"):
+        if shape in ("x_s", "x_s_w", "x_s_step"):
             L2 = np.sqrt(3.0) * gmrf_factor(n) if (gmrf and shape == "x_s") else I
             return rto_steps(tape, [(np.sqrt(g("s")), A, y)], L2, start, maxit, tol, n_steps)
         if shape == "x_d_s":
